@@ -1058,6 +1058,20 @@ func (in *c03Inst) applyOp(op c03Op) error {
 		case c03SameSet(got, []string{c03ATr, c03ASys}) && h.allow:
 			in.outcome("SetPeer: refused (" + why + "), connection stays in the allow-listed pair")
 		default:
+			if len(got) == 0 {
+				// the shape of the open known finding (the connection is charged to nothing). It must not mask further damage
+				// of the same step: with the connection counted nowhere, every scope has to report exactly what the OTHER
+				// holders hold - a scope that kept (part of) the connection's resources is a different violation
+				h.nowhere = true
+				extra := in.audit(op, true)
+				h.nowhere = false
+				if extra != nil {
+					if v, ok := extra.(*seqmc.Vio); ok {
+						return seqmc.Violation("refused-reparent-stray-usage:SetPeer", "%s refused (%s: %v); the connection is charged to no scope any more, and on top of that: %s", op, why, err, v.Desc)
+					}
+					return extra
+				}
+			}
 			return seqmc.Violation("refused-reparent-inconsistent:SetPeer", "%s refused (%s: %v) and the connection, still open and holding %v, is now charged to %v (consistent would be [transient system] or [alTransient alSystem])", op, why, err, d, got)
 		}
 		reparentRefused = true
